@@ -5,6 +5,7 @@ import (
 	"bytes"
 	"net"
 	"slices"
+	"strings"
 
 	"github.com/libp2p/go-libp2p/core/peer"
 	"github.com/multiformats/go-multiaddr"
@@ -26,7 +27,9 @@ func FilterPublic(maddrs []multiaddr.Multiaddr) []multiaddr.Multiaddr {
 		case multiaddr.P_IP4, multiaddr.P_IP6, multiaddr.P_IP6ZONE, multiaddr.P_IPCIDR:
 			return manet.IsPublicAddr(target) && !manet.IsIPUnspecified(target)
 		case multiaddr.P_DNS, multiaddr.P_DNS4, multiaddr.P_DNS6, multiaddr.P_DNSADDR:
-			return c.Value() != "localhost"
+			// Host names are case-insensitive, and may be fully qualified
+			// with a trailing dot.
+			return !strings.EqualFold(strings.TrimSuffix(c.Value(), "."), "localhost")
 		}
 		return true
 	})
